@@ -3,6 +3,7 @@ CONSTANTS
   Scripts <- ZeroMsg
   Direct = FALSE
   ForwardHalfClose = TRUE
+  JoinBeforeError = FALSE
   NeedFirstMessage = TRUE
 INVARIANTS TranscriptEquivalence BackendSawPrefix BackendSawAll NoPumpOutlivesHandler
 PROPERTY Finishes
